@@ -33,6 +33,16 @@ def cases(tier, seed):
             out.append({"single": rand_obj(rng, nd=nd, dtype=dt), "overwrite": True})
     for _ in range(10 if tier == "quick" else 80):
         out.append({"ws": rand_ws(rng), "overwrite": True})
+    # how the object came to hold its parts must not matter: every third object is built with other attributes / history that
+    # are then replaced as a whole through the public setters (directly, on a copy, or copied afterwards)
+    hows = ("setters", "copy-then-setters", "copy-after-setters")
+    k = 0
+    for c in out:
+        objs = [c["single"]] if "single" in c else [e[1]["obj"] for e in c["ws"] if e[1].get("kind") == "data"]
+        for o in objs:
+            k += 1
+            if k % 3 == 0:
+                o["assembly"] = hows[(k // 3) % 3]
     return out
 
 
